@@ -124,6 +124,62 @@ def h2_pressure(seed):
     return desc, failures
 
 
+def h2_negative_window(seed):
+    """The client lowers SETTINGS_INITIAL_WINDOW_SIZE in the middle of a response: the stream's send window goes negative
+    (RFC 9113 6.9.2) - by a little, while data is buffered.  The server holds what it has, the application stays blocked, and
+    when credit arrives the response is delivered completely and in order."""
+    import h2.settings
+
+    rng = random.Random(seed)
+    W = rng.choice([20000, 30000, 65535])
+    delta = rng.choice([1, 10, 1000, W // 2])
+    m = rng.choice([5000, 16384, 20000])
+    nmsgs = rng.choice([8, 20, 40])
+    recs = {}
+
+    def make_app(session):
+        async def app(scope, receive, send):
+            r = recs.setdefault(scope["path"], [])
+            await S.scripted_app([big_script(nmsgs, m)], r, session.driver)(scope, receive, send)
+
+        return app
+
+    sess = H2.H2Session([], policy=rng.choice(["fifo", "random"]), seed=seed, client_settings={h2.settings.SettingCodes.INITIAL_WINDOW_SIZE: W},
+                        app=make_app, worker=rng.choice(["asyncio", "trio"]))
+    sess.auto_ack = False
+    desc = {"seed": seed, "carrier": "h2", "where": "negative-window", "release": "credit", "W": W, "delta": delta, "m": m, "nmsgs": nmsgs}
+    failures = []
+    sess.request(1, path="/s1")
+    sess.pump()
+    total = m * nmsgs
+    got0 = len(sess.data.get(1, b""))
+    app1 = recs["/s1"][0]
+    sends0 = len(app1["sends"])
+    sess.client.update_settings({h2.settings.SettingCodes.INITIAL_WINDOW_SIZE: W - delta})
+    sess.flush()
+    sess.pump()
+    desc["received_before"] = got0
+    if len(sess.data.get(1, b"")) != got0:
+        failures.append({"signature": "h2-data-sent-at-negative-window", "seed": seed, "desc": desc, "got": len(sess.data.get(1, b""))})
+    if total > W + HIGH + 2 * m and (app1["finished"] or len(app1["sends"]) > sends0 + 2):
+        failures.append({"signature": "h2-sends-complete-at-negative-window", "seed": seed, "desc": desc, "sends_before": sends0,
+                         "sends_now": len(app1["sends"]), "finished": app1["finished"]})
+    sess.auto_ack = True
+    sess.window_update(0, total + 100000)
+    sess.window_update(1, total + 100000)
+    for _ in range(80):
+        sess.pump()
+        if sess.ended.get(1) or sess.reset.get(1) is not None:
+            break
+    exp = b"".join(HS.genb(m, i % 256) for i in range(nmsgs))
+    if sess.data.get(1, b"") != exp or sess.ended.get(1, 0) != 1 or 1 in sess.reset:
+        failures.append({"signature": "h2-not-delivered-after-negative-window", "seed": seed, "desc": desc, "got": len(sess.data.get(1, b"")),
+                         "expected": len(exp), "ends": sess.ended.get(1, 0), "reset": sess.reset.get(1)})
+    if not app1["finished"] or any(x[0] == "raise" for x in app1["sends"]):
+        failures.append({"signature": "h2-application-disturbed-by-negative-window", "seed": seed, "desc": desc})
+    return desc, failures
+
+
 def h1_pressure(seed):
     """HTTP/1: the transport is paused while the application sends."""
     from . import rig as R
@@ -327,6 +383,10 @@ def run(ctx):
         oracle_failures.extend(f)
     for i in range(ctx.scale(80, 300, 100)):
         d, f = ws_h2_pressure(ctx.seed * 7919 + i)
+        descs.append(d)
+        oracle_failures.extend(f)
+    for i in range(ctx.scale(40, 300, 100)):
+        d, f = h2_negative_window(ctx.seed * 7919 + i)
         descs.append(d)
         oracle_failures.extend(f)
     for i in range(ctx.scale(24, 160, 60)):
